@@ -32,6 +32,11 @@ enum Op {
     Delete,
     /// hard reset_peer API: Cease to every live session, the neighbour stays configured
     Reset,
+    /// UpdatePeer API declaring the static neighbour's configuration with the hold time toggled
+    /// (a parameter that needs the running sessions torn down)
+    Update,
+    /// UpdatePeer API re-declaring the configuration in force (nothing to tear down)
+    UpdateSame,
 }
 
 fn rname(r: crate::fsm::Role) -> &'static str {
@@ -49,6 +54,8 @@ fn op_name(o: &Op) -> String {
         Op::Disable => "disable(static)".into(),
         Op::Delete => "delete(static)".into(),
         Op::Reset => "hard_reset(static)".into(),
+        Op::Update => "update_peer(static, other hold time)".into(),
+        Op::UpdateSame => "update_peer(static, same parameters)".into(),
     }
 }
 
@@ -87,6 +94,8 @@ struct Expect {
 struct Live {
     stream: Option<TcpStream>,
     join: Option<tokio::task::JoinHandle<()>>,
+    /// the arbiter this session was registered with (a close request is delivered through it)
+    arb: Arc<std::sync::Mutex<ConnArbiter>>,
 }
 
 pub(crate) struct Sys {
@@ -95,6 +104,9 @@ pub(crate) struct Sys {
     live: BTreeMap<(u8, usize), Live>,
     // reference
     peers: BTreeMap<usize, (bool /*admin_down*/, bool /*dynamic*/)>,
+    /// hold time / number of prefix limits the static neighbour is configured with now
+    static_hold: u64,
+    static_limits: usize,
     broken: BTreeSet<String>,
     dead: bool,
 }
@@ -142,7 +154,7 @@ impl AcceptModel {
 
     /// What the statement allows for a session of address `a` (several answers
     /// when overlapping dynamic prefixes both match: any matching group is fine).
-    fn expect(&self, a: usize, dynamic: bool) -> Expect {
+    fn expect(&self, a: usize, dynamic: bool, static_hold: u64, static_limits: usize) -> Expect {
         let mut e = Expect { roles: vec![], holds: vec![], open_as: vec![], gr: vec![], limits: vec![] };
         let open_as = |remote_as: u32| -> u32 {
             match &self.cfg.confed {
@@ -153,10 +165,10 @@ impl AcceptModel {
         };
         if !dynamic {
             e.roles.push(self.role_for(self.cfg.static_remote_as, 0, self.cfg.static_rs, false));
-            e.holds.push(self.cfg.static_hold);
+            e.holds.push(static_hold);
             e.open_as.push(open_as(self.cfg.static_remote_as));
             e.gr.push(false);
-            e.limits.push(self.cfg.static_prefix_limit.is_some() as usize);
+            e.limits.push(static_limits);
         } else {
             for g in self.groups_matching(a) {
                 e.roles.push(self.role_for(g.as_number, g.local_asn, g.rs_client, g.rr_client));
@@ -227,7 +239,7 @@ impl Model for AcceptModel {
         });
         let mut peers = BTreeMap::new();
         peers.insert(0usize, (self.cfg.static_admin_down, false));
-        Sys { rt, d, live: BTreeMap::new(), peers, broken: BTreeSet::new(), dead: false }
+        Sys { rt, d, live: BTreeMap::new(), peers, static_hold: self.cfg.static_hold, static_limits: self.cfg.static_prefix_limit.is_some() as usize, broken: BTreeSet::new(), dead: false }
     }
 
     fn step(&self, sys: &mut Sys, op: usize, out: &mut Vec<(String, String)>) -> bool {
@@ -267,7 +279,7 @@ impl Model for AcceptModel {
                             Ok::<_, String>((None, n, None))
                         }
                         Some(session) => {
-                            let facts = (session.export_ctx.role, session.prefix_counters.len(), session.export_ctx.local_asn);
+                            let facts = (session.export_ctx.role, session.prefix_counters.len(), session.export_ctx.local_asn, session.conn_arbiter.clone());
                             let global = d.global.clone();
                             let active_tx = d.active_tx.clone();
                             let join = tokio::spawn(async move { session.run(global, active_tx).await });
@@ -301,9 +313,9 @@ impl Model for AcceptModel {
                 if got.is_none() && bytes_before_close > 0 {
                     cur.push(("C16/bytes-written-before-refusal".into(), format!("{}: {} bytes reached the peer although the connection was refused", op_name(o), bytes_before_close)));
                 }
-                if let Some((conn, (role_got, n_limits, _local_asn))) = got {
+                if let Some((conn, (role_got, n_limits, _local_asn, arb))) = got {
                     if want {
-                        let e = self.expect(*a, dynamic);
+                        let e = self.expect(*a, dynamic, sys.static_hold, sys.static_limits);
                         if !e.roles.contains(&role_got) {
                             cur.push((format!("C16/session-role/{}", ANAME[*a]), format!("{}: session role {:?}, configuration implies one of {:?}", op_name(o), role_got, e.roles)));
                         }
@@ -333,7 +345,7 @@ impl Model for AcceptModel {
                         }
                     }
                     let Conn { stream, join, .. } = conn;
-                    if let Some(old) = sys.live.insert(key, Live { stream, join }) {
+                    if let Some(old) = sys.live.insert(key, Live { stream, join, arb }) {
                         // the reference said "refuse" but the daemon accepted a second connection of the
                         // same direction: keep the system consistent by closing the older one
                         drop(old);
@@ -357,7 +369,7 @@ impl Model for AcceptModel {
                     sys.peers.remove(a);
                 }
             }
-            Op::Enable | Op::Disable | Op::Delete | Op::Reset => {
+            Op::Enable | Op::Disable | Op::Delete | Op::Reset | Op::Update | Op::UpdateSame => {
                 if !sys.peers.get(&0).is_some_and(|(_, dynamic)| !*dynamic) {
                     return false; // the configured neighbour is gone (a dynamic one may have taken its address)
                 }
@@ -369,49 +381,82 @@ impl Model for AcceptModel {
                 }
                 let d = &sys.d;
                 let which = o.clone();
-                sys.rt.block_on(async {
-                    let mut g = d.global.write().await;
+                let new_hold = match o {
+                    Op::Update => {
+                        if sys.static_hold == self.cfg.static_hold {
+                            self.cfg.static_hold + 15
+                        } else {
+                            self.cfg.static_hold
+                        }
+                    }
+                    _ => sys.static_hold,
+                };
+                let cfg = self.cfg.clone();
+                // the operator's API: the real gRPC handlers
+                let res: Result<(), String> = sys.rt.block_on(async {
+                    use api::go_bgp_service_server::GoBgpService;
+                    let svc = super::super::grpc::GrpcService::new(Arc::new(tokio::sync::Notify::new()), d.active_tx.clone(), d.global.clone(), d.tables.clone());
+                    let address = A_STATIC.to_string();
                     match which {
-                        Op::Enable => {
-                            if let Some(p) = g.peers.get_mut(&A_STATIC) {
-                                p.admin_down = false;
-                            }
-                        }
-                        Op::Disable => {
-                            if let Some(p) = g.peers.get_mut(&A_STATIC) {
-                                if !p.admin_down {
-                                    p.admin_down = true;
-                                    p.context.lock().unwrap().force_down(CloseReason::AdminShutdown, true);
-                                }
-                            }
-                        }
-                        Op::Reset => {
-                            if let Some(p) = g.peers.get(&A_STATIC) {
-                                p.context.lock().unwrap().force_down(
-                                    CloseReason::SendMessage(bgp::Message::Notification(rustybgp_packet::Notification::CeasePeerDeconfigured)),
-                                    false,
-                                );
-                            }
-                        }
+                        Op::Enable => svc.enable_peer(tonic::Request::new(api::EnablePeerRequest { address })).await.map(|_| ()).map_err(|e| e.to_string()),
+                        Op::Disable => svc.disable_peer(tonic::Request::new(api::DisablePeerRequest { address, ..Default::default() })).await.map(|_| ()).map_err(|e| e.to_string()),
+                        Op::Reset => svc.reset_peer(tonic::Request::new(api::ResetPeerRequest { address, soft: false, ..Default::default() })).await.map(|_| ()).map_err(|e| e.to_string()),
+                        Op::Delete => svc.delete_peer(tonic::Request::new(api::DeletePeerRequest { address, ..Default::default() })).await.map(|_| ()).map_err(|e| e.to_string()),
                         _ => {
-                            if let Some(p) = g.peers.remove(&A_STATIC) {
-                                p.context.lock().unwrap().force_down(
-                                    CloseReason::SendMessage(bgp::Message::Notification(rustybgp_packet::Notification::CeasePeerDeconfigured)),
-                                    true,
-                                );
-                            }
+                            let fam = |afi: i32, safi: i32| api::AfiSafi { config: Some(api::AfiSafiConfig { family: Some(api::Family { afi, safi }), enabled: true }), ..Default::default() };
+                            let peer = api::Peer {
+                                conf: Some(api::PeerConf { neighbor_address: address, peer_asn: cfg.static_remote_as, admin_down, ..Default::default() }),
+                                timers: Some(api::Timers { config: Some(api::TimersConfig { hold_time: new_hold, ..Default::default() }), ..Default::default() }),
+                                transport: Some(api::Transport { passive_mode: true, ..Default::default() }),
+                                route_server: Some(api::RouteServer { route_server_client: cfg.static_rs, ..Default::default() }),
+                                afi_safis: vec![fam(api::family::Afi::Ip as i32, api::family::Safi::Unicast as i32), fam(api::family::Afi::Ip6 as i32, api::family::Safi::Unicast as i32)],
+                                ..Default::default()
+                            };
+                            svc.update_peer(tonic::Request::new(api::UpdatePeerRequest { peer: Some(peer), ..Default::default() })).await.map(|_| ()).map_err(|e| e.to_string())
                         }
                     }
                 });
+                if let Err(e) = res {
+                    cur.push((format!("C16/admin-api-refused/{}", op_name(o).split('(').next().unwrap_or("")), format!("{}: the API call on the configured neighbour failed: {e}", op_name(o))));
+                }
+                if matches!(o, Op::Update | Op::UpdateSame) {
+                    // UpdatePeer declares the full configuration: what the API message cannot
+                    // carry (the prefix limits of this configuration) is no longer configured
+                    sys.static_limits = 0;
+                }
+                let teardown = match o {
+                    Op::Update => true,
+                    // the first re-declaration drops the prefix limits only: no session parameter changes
+                    Op::UpdateSame => false,
+                    _ => true,
+                };
+                sys.static_hold = new_hold;
                 match o {
                     Op::Enable => {
                         sys.peers.insert(0, (false, false));
                     }
-                    Op::Disable | Op::Delete | Op::Reset => {
+                    Op::Disable | Op::Delete | Op::Reset | Op::Update if teardown => {
                         // live sessions of the static peer are shut down
                         let keys: Vec<(u8, usize)> = sys.live.keys().filter(|(_, a)| *a == 0).copied().collect();
                         for k in keys {
                             let mut l = sys.live.remove(&k).unwrap();
+                            // the close request travels through the arbiter the session was registered
+                            // with: force_down takes the sender out of it.  Still there = never asked.
+                            let asked = {
+                                let a = l.arb.lock().unwrap();
+                                if k.0 == 0 { a.active_close_tx.is_none() } else { a.passive_close_tx.is_none() }
+                            };
+                            if !asked {
+                                cur.push((
+                                    format!("C16/admin-op-did-not-reach-session/{}", op_name(o).split('(').next().unwrap_or("")),
+                                    format!("{}: a live {} session of the neighbour was never asked to close: it keeps running under the configuration it was set up from", op_name(o), if k.0 == 0 { "active" } else { "passive" }),
+                                ));
+                                if let Some(j) = l.join.take() {
+                                    j.abort();
+                                }
+                                sys.dead = true;
+                                continue;
+                            }
                             sys.rt.block_on(async {
                                 if let Some(j) = l.join.take() {
                                     if tokio::time::timeout(WAIT, j).await.is_err() {
@@ -509,7 +554,7 @@ impl Model for AcceptModel {
             v.sort();
             v
         });
-        format!("{:?}|{:?}|{:?}|{}|{:?}", sys.peers, sys.live.keys().collect::<Vec<_>>(), sys.broken, sys.dead, real).into_bytes()
+        format!("{:?}|{:?}|{:?}|{}|{:?}|{}|{}", sys.peers, sys.live.keys().collect::<Vec<_>>(), sys.broken, sys.dead, real, sys.static_hold, sys.static_limits).into_bytes()
     }
 
     fn observe(&self, sys: &Sys) -> u64 {
@@ -539,7 +584,7 @@ fn accept_models() -> Vec<AcceptModel> {
                 v.push(Op::Disconnect(r, a));
             }
         }
-        v.extend([Op::Disable, Op::Enable, Op::Delete, Op::Reset]);
+        v.extend([Op::Disable, Op::Enable, Op::Delete, Op::Reset, Op::Update, Op::UpdateSame]);
         v
     };
     let g = |name: &'static str, prefix: &'static str, as_number: u32, local_asn: u32, rs: bool, rr: bool, hold: Option<u64>, gr: bool| GroupCfg { name, prefix, as_number, local_asn, rs_client: rs, rr_client: rr, holdtime: hold, gr };
